@@ -46,10 +46,31 @@ def poolObsLine (c : PoolCase) : Sx :=
   -- every enqueued job finishes and every worker is joined (C15_drain)
   .list (.atom "obs" :: obs ++ [.list [.atom "end", .atom (toString s.nextJob), .atom (toString s.nextJob), .atom "t"]])
 
+/-- free-running bursts (`(pool-storm initial max k rounds)`): k ≤ max long-lived connections arrive back to
+    back with nobody holding the threads at probe points; the model's answer is what the schedule
+    `(E G)^k D^k (S 0) … (S k-1)` gives, round after round from the state in which all have finished -/
+def stormModel (initial max k rounds : Nat) : Sx :=
+  let burst : List PStep := (List.replicate k [PStep.enq, PStep.grow]).flatten ++ List.replicate k PStep.deq
+  let rec round (s : PoolSt) : Nat → Nat → Sx
+    | 0, _ => .list [.atom "storm", .atom "ok"]
+    | n + 1, i =>
+      let base := s.nextJob
+      let ids := (List.range k).map (· + base)
+      let s1 := (burst ++ ids.map PStep.start).foldl Pool.step s
+      if Pool.serving s1 != k then .list [.atom "storm", .atom "stranded", .atom (toString i), .atom (toString (Pool.serving s1)), .atom (toString k)]
+      else round ((ids.map PStep.finish ++ ids.map PStep.dec).foldl Pool.step s1) n (i + 1)
+  round (Pool.init initial max) rounds 0
+
 def poolLine (line : String) : String :=
   match parse line with
   | none => "(model-parse-error)"
   | some sx =>
+    match sx with
+    | .list [.atom "pool-storm", i, m, k, r] =>
+      (match asNat i, asNat m, asNat k, asNat r with
+       | some i, some m, some k, some r => render (stormModel i m k r)
+       | _, _, _, _ => "(model-case-error)")
+    | _ =>
     match parsePoolCase sx with
     | none => "(model-case-error)"
     | some c => render (poolObsLine c)
@@ -75,6 +96,13 @@ def parsePoolObs : Sx → Option PoolObs
 
 def poolPred (prop : String) (caseLine obsLine : String) : String :=
   match parse caseLine, parse obsLine with
+  | some (.list (.atom "pool-storm" :: _)), some os =>
+    (match os with
+     | .list [.atom "storm", .atom "ok"] => "ok"
+     | .list (.atom "storm" :: .atom "stranded" :: _) =>
+       if prop == "C14" then "fail accepted-connection-not-served-although-fewer-than-max-are-in-service (free-running burst)"
+       else "ok"
+     | _ => "fail unparsable-case-or-observation")
   | some cs, some os =>
     match parsePoolCase cs, parsePoolObs os with
     | some c, some o =>
